@@ -11,6 +11,16 @@ namespace UpfVerif.FlowDesc
 
 abbrev Str := List Char
 
+/-! keywords as explicit character lists (string literals do not reduce well in proofs) -/
+def kwPermit : Str := ['p', 'e', 'r', 'm', 'i', 't']
+def kwIn : Str := ['i', 'n']
+def kwOut : Str := ['o', 'u', 't']
+def kwIp : Str := ['i', 'p']
+def kwFrom : Str := ['f', 'r', 'o', 'm']
+def kwTo : Str := ['t', 'o']
+def kwAny : Str := ['a', 'n', 'y']
+def kwAssigned : Str := ['a', 's', 's', 'i', 'g', 'n', 'e', 'd']
+
 /-- Go's ASCII white space (`strings.Fields`, asciiSpace table) -/
 def isSpace (c : Char) : Bool := c == ' ' || c == '\t' || c == '\n' || c == '\x0b' || c == '\x0c' || c == '\r'
 
@@ -55,22 +65,26 @@ def parsePorts (s : Str) : Option (List (List Nat)) :=
       | some x, some y => some [x, y]
       | _, _ => none
 
-/-- `netip.parseIPv4Fields`: state = (value, field index, digits in field, previous char was a dot), first flag -/
-def ipv4Fields : Str → Nat → Nat → Nat → Bool → List Nat → Bool → Option (List Nat)
-  | [], val, pos, _, _, fs, _ => if pos < 3 then none else some (fs ++ [val])
-  | c :: rest, val, pos, digLen, prevDot, fs, first =>
-    if isDigit c then
-      if digLen == 1 && val == 0 then none
-      else
-        let v := val * 10 + digitVal c
-        if v > 255 then none else ipv4Fields rest v pos (digLen + 1) false fs false
-    else if c == '.' then
-      if first || rest.isEmpty || prevDot then none
-      else if pos == 3 then none
-      else ipv4Fields rest 0 (pos + 1) 0 true (fs ++ [val]) false
-    else none
+/-- one dotted-quad field as `netip.parseIPv4Fields` accepts it: at least one digit, digits only, no leading zero
+    in a multi-digit field, value at most 255 -/
+def parseOctet (f : Str) : Option Nat :=
+  if f.isEmpty then none
+  else if !f.all isDigit then none
+  else if f.length > 1 && f.head? == some '0' then none
+  else
+    let v := f.foldl (fun acc c => acc * 10 + digitVal c) 0
+    if v ≤ 255 then some v else none
 
-def parseIPv4 (s : Str) : Option (List Nat) := ipv4Fields s 0 0 0 false [] true
+/-- `netip.parseIPv4`: exactly four fields separated by single dots.  (The library walks the string once, character
+    by character; splitting first is an equivalent formulation — checked against the implementation by the
+    correspondence stream, which includes leading zeros, empty fields, too few / too many fields, stray characters.) -/
+def parseIPv4 (s : Str) : Option (List Nat) :=
+  match splitOn '.' s [] with
+  | [a, b, c, d] =>
+    match parseOctet a, parseOctet b, parseOctet c, parseOctet d with
+    | some w, some x, some y, some z => some [w, x, y, z]
+    | _, _, _, _ => none
+  | _ => none
 
 /-- `netip.ParseAddr` restricted to what the model covers: the first of '.', ':', '%' decides; only '.' is modelled -/
 inductive AddrClass | v4 | v6 | none
@@ -107,7 +121,7 @@ deriving DecidableEq, Repr
 
 /-- `ParseFlowDescIPNet` on tokens without ':' / '%' -/
 def parseIPNet (s : Str) : Option IPNet :=
-  if s == "any".toList || s == "assigned".toList then
+  if s == kwAny || s == kwAssigned then
     some { ip := List.replicate 16 0, mask := List.replicate 16 0 }
   else
     match cutSlash s [] with
@@ -132,38 +146,45 @@ structure FlowDesc where
   dports : List (List Nat)
 deriving DecidableEq, Repr
 
-/-- `ParseFlowDesc` after `strings.Fields` -/
-def parseTokens (toks : List Str) : Option FlowDesc :=
-  match toks with
-  | act :: dir :: proto :: frm :: src :: rest =>
-    if act != "permit".toList then none
-    else if dir != "in".toList && dir != "out".toList then none
-    else
-      match (if proto == "ip".toList then some 255 else parseUint proto 8) with
-      | none => none
-      | some p =>
-        if frm != "from".toList then none else
-        match parseIPNet src with
+/-- protocol token: `ip` (any protocol, 0xff) or a decimal number below 256 -/
+def parseProto (t : Str) : Option Nat := if t == kwIp then some 255 else parseUint t 8
+
+def validDir (t : Str) : Bool := t == kwIn || t == kwOut
+
+/-- the optional source-port token: the token after the source address is *tried* as a port list -/
+def takePorts (t : Str) (rest : List Str) : List (List Nat) × List Str :=
+  match parsePorts t with
+  | some ps => (ps, rest)
+  | none => ([], t :: rest)
+
+/-- the optional destination-port token: whatever follows the destination address is tried as a port list; a token
+    that is not one (and anything after it) is ignored -/
+def tailPorts : List Str → List (List Nat)
+  | t :: _ => (parsePorts t).getD []
+  | [] => []
+
+/-- `… [ports] to <address> [ports]` -/
+def parseTail : List Str → Option (List (List Nat) × IPNet × List (List Nat))
+  | [] => none
+  | t :: rest1 =>
+    match (takePorts t rest1).2 with
+    | to :: dst :: rest3 =>
+      if to == kwTo then
+        match parseIPNet dst with
+        | some d => some ((takePorts t rest1).1, d, tailPorts rest3)
         | none => none
-        | some srcNet =>
-          -- optional source ports: the next token is tried as a port list
-          match rest with
-          | [] => none
-          | t :: rest1 =>
-            let (sports, rest2) := match parsePorts t with
-              | some ps => (ps, rest1)
-              | none => ([], t :: rest1)
-            match rest2 with
-            | to :: dst :: rest3 =>
-              if to != "to".toList then none else
-              match parseIPNet dst with
-              | none => none
-              | some dstNet =>
-                let dports := match rest3 with
-                  | t' :: _ => (parsePorts t').getD []
-                  | [] => []
-                some { dir := dir, proto := p, src := srcNet, dst := dstNet, sports := sports, dports := dports }
-            | _ => none
+      else none
+    | _ => none
+
+/-- `ParseFlowDesc` after `strings.Fields` (every step of the Go function must succeed; the order in which the
+    failures would be reported is not modelled) -/
+def parseTokens : List Str → Option FlowDesc
+  | act :: dir :: proto :: frm :: src :: rest =>
+    if act == kwPermit && validDir dir && frm == kwFrom then
+      match parseProto proto, parseIPNet src, parseTail rest with
+      | some p, some s, some (sp, d, dp) => some { dir := dir, proto := p, src := s, dst := d, sports := sp, dports := dp }
+      | _, _, _ => none
+    else none
   | _ => none
 
 def parseFlowDesc (s : Str) : Option FlowDesc := parseTokens (fields s)
@@ -171,11 +192,13 @@ def parseFlowDesc (s : Str) : Option FlowDesc := parseTokens (fields s)
 /-- is the string inside the modelled domain: ASCII, and no ':' / '%' anywhere (IPv6 literals, zones) -/
 def inDomain (s : Str) : Bool := s.all fun c => c.toNat < 128 && c != ':' && c != '%'
 
-/-- `convertSlice`: one 32-bit word per item, `lo << 16 | hi` (a single port is its own range) -/
-def portWords (ps : List (List Nat)) : List Nat :=
-  ps.map fun p => match p with
-    | [a] => a * 65536 + a
-    | [a, b] => a * 65536 + b
-    | _ => 0
+/-- one item of `convertSlice`: `lo << 16 | hi` (a single port is its own range) -/
+def portWord : List Nat → Nat
+  | [a] => a * 65536 + a
+  | [a, b] => a * 65536 + b
+  | _ => 0
+
+/-- `convertSlice`: one 32-bit word per item -/
+def portWords (ps : List (List Nat)) : List Nat := ps.map portWord
 
 end UpfVerif.FlowDesc
